@@ -399,16 +399,9 @@ impl MarkdownEventsReader {
 }
 
 fn line_starts(content: &str) -> Vec<usize> {
+    // a line starts after every line feed, whatever precedes it (LF or CRLF endings)
     once(0)
-        .chain(
-            content
-                .lines()
-                .map(|line| line.len() + 1)
-                .scan(0, |start, len| {
-                    *start += len;
-                    Some(*start)
-                }),
-        )
+        .chain(content.match_indices('\n').map(|(index, _)| index + 1))
         .collect()
 }
 
